@@ -118,6 +118,9 @@ def check_factory(case, ctx: Ctx):
     require(b.bin_count == len(ps), "bin_count", f"{b.bin_count} vs {len(ps)}")
     require(float(b.first_edge) == first and float(b.last_edge) == last, "first_last_edge", f"{b.first_edge},{b.last_edge} vs {first},{last}")
     rng = kwargs.get("range")
+    # data-driven rules look only at the values inside the requested range (both ends included)
+    data_in = [v for v in data if rng[0] <= v <= rng[1]] if rng is not None else data
+    n_in = len(data_in)
     # ---- coverage
     if kind in ("edges", "pairs"):
         pass
@@ -135,7 +138,8 @@ def check_factory(case, ctx: Ctx):
         q = spec.get("qs")
         qr = kwargs.get("qrange")
         if (q is None and (qr is None or (qr[0] == 0.0 and qr[1] == 1.0))) or (q is not None and min(q) == 0.0 and max(q) == 1.0):
-            require(first <= lo and last >= hi, "not_covered", f"[{first!r},{last!r}] vs data [{lo!r},{hi!r}]")
+            lo_q, hi_q = (min(data_in), max(data_in)) if data_in else (lo, hi)
+            require(first <= lo_q and last >= hi_q, "not_covered", f"[{first!r},{last!r}] vs data in range [{lo_q!r},{hi_q!r}]")
     elif rng is not None:
         require(first <= rng[0] and last >= rng[1], "range_not_covered", f"[{first!r},{last!r}] vs range {rng}")
     else:
@@ -152,10 +156,11 @@ def check_factory(case, ctx: Ctx):
         elif kind == "numpy":
             count = kwargs.get("bin_count", 10)
         else:
+            n = n_in  # (the rules count the values in the range)
             real = {"sturges": lambda: math.log2(n) + 1 if not near_int(math.log2(n)) else None,
                     "sqrt": lambda: math.sqrt(n),
                     "rice": lambda: 2 * n ** (1 / 3),
-                    "doane": lambda: (1 + math.log2(n) + math.log2(1 + abs(my_skew(data)) / math.sqrt(6 * (n - 2) / ((n + 1) * (n + 3))))) if n >= 3 else 0.5}[kind]()
+                    "doane": lambda: (1 + math.log2(n) + math.log2(1 + abs(my_skew(data_in)) / math.sqrt(6 * (n - 2) / ((n + 1) * (n + 3))))) if n >= 3 else 0.5}[kind]()
             if kind == "sturges":
                 count = math.ceil(math.log2(n)) + 1
                 real = None
@@ -230,7 +235,7 @@ def check_factory(case, ctx: Ctx):
             require(model.locate(ps, lo, False) in (0,), "superfluous_left_bin", f"min {lo!r} first bins {ps[:2]}")
             require(model.locate(ps, hi, True) == len(ps) - 1 or model.locate(ps, hi, False) == len(ps) - 1, "superfluous_right_bin", f"max {hi!r} last bins {ps[-2:]}")
     elif kind == "quantile":
-        sd = sorted(data)
+        sd = sorted(data_in)
         qs = spec.get("qs")
         if qs is None:
             qr = kwargs.get("qrange", (0.0, 1.0))
@@ -326,6 +331,12 @@ def factory_cases(draw, tier="quick"):
             kw["range"] = [lo - span * draw(st.sampled_from([0.0, 0.5])), hi + span * draw(st.sampled_from([0.0, 0.25]))]
     elif kind in ("sturges", "sqrt", "rice", "doane"):
         spec["arg"] = kind
+        sd_ = sorted(set(data))
+        if len(sd_) >= 6 and draw(st.integers(0, 2)) == 0:
+            # a requested range whose ends are data values (both belong to the range)
+            a_ = draw(st.integers(0, len(sd_) // 3))
+            b_ = draw(st.integers(2 * len(sd_) // 3, len(sd_) - 1))
+            kw["range"] = [sd_[a_], sd_[b_]]
     elif kind == "fixed_width":
         spec["arg"] = "fixed_width"
         cnt = draw(st.integers(1, 40))
@@ -357,6 +368,11 @@ def factory_cases(draw, tier="quick"):
             kw["range"] = [math.floor(lo) - draw(st.integers(0, 3)), math.ceil(hi) + 1 + draw(st.integers(0, 3))]
     elif kind == "quantile":
         spec["arg"] = "quantile"
+        sd_ = sorted(set(data))
+        if len(sd_) >= 6 and draw(st.integers(0, 2)) == 0:
+            a_ = draw(st.integers(0, len(sd_) // 3))
+            b_ = draw(st.integers(2 * len(sd_) // 3, len(sd_) - 1))
+            kw["range"] = [sd_[a_], sd_[b_]]
         if draw(st.booleans()):
             kw["bin_count"] = draw(st.integers(1, 10))
             if draw(st.booleans()):
